@@ -48,6 +48,37 @@ fn params_for(method: &str, uri: &str) -> Value {
     }
 }
 
+static DEEP: std::sync::OnceLock<Vec<String>> = std::sync::OnceLock::new();
+
+/// nested parentheses / IF statements 40, 120 and 300 deep, kept only when `ironplcc check` ends
+/// normally on them (the main thread of the command line has the larger stack)
+fn deep_docs() -> &'static Vec<String> {
+    DEEP.get_or_init(|| {
+        let mut v = vec![];
+        for d in [40usize, 120, 300] {
+            let parens = format!("PROGRAM p\nVAR\nx : INT;\nEND_VAR\nx := {}1{};\nEND_PROGRAM\n", "(".repeat(d), ")".repeat(d));
+            let mut ifs = String::from("PROGRAM p\nVAR\nx : INT;\nEND_VAR\n");
+            for _ in 0..d {
+                ifs.push_str("IF x = 1 THEN\n");
+            }
+            ifs.push_str("x := 2;\n");
+            for _ in 0..d {
+                ifs.push_str("END_IF;\n");
+            }
+            ifs.push_str("END_PROGRAM\n");
+            for text in [parens, ifs] {
+                let dir = Scratch::new("c12deep");
+                let p = dir.write("deep.st", text.as_bytes()).to_string_lossy().to_string();
+                let out = run_cli(&["check".to_string(), p], None);
+                if !out.timed_out && matches!(out.status, Some(c) if c != 101) {
+                    v.push(text);
+                }
+            }
+        }
+        v
+    })
+}
+
 pub fn gen_script(t: &mut Tape, gates: &Gates, max_len: usize) -> Script {
     let mut s = Script { messages: vec![lsp_initialize(0), lsp_initialized()], requests: vec![(json!(0), "initialize".into())], doc_notifications: vec![], kinds: vec![] };
     // documents: the fixed small ones, a few shapes that have tripped servers (a statement keyword
@@ -68,6 +99,11 @@ pub fn gen_script(t: &mut Tape, gates: &Gates, max_len: usize) -> Script {
     // document: diagnostics at the end of input move)
     pool.push("PROGRAM p\nVAR\nx : INT;\n\n\n".into());
     pool.push("PROGRAM p\nVAR\nx : INT;\nEND_VAR\nx := 1;\n   \n\t\n".into());
+    // deeply nested documents that `ironplcc check` itself survives (established once per run): the
+    // server must survive whatever the command line survives
+    for d in deep_docs() {
+        pool.push(d.clone());
+    }
     let extra: Vec<String> = pool.iter().flat_map(|d| vec![d.trim_end().to_string(), format!("{}\n\n  ", d)]).collect();
     pool.extend(extra);
     let pool: Vec<&str> = pool.iter().map(|x| x.as_str()).collect();
